@@ -33,6 +33,12 @@ class SQLLiteQueryBuilder(QueryBuilder):
     def __init__(self, **kwargs) -> None:
         super().__init__(wrapper_cls=SQLLiteValueWrapper, **kwargs)
 
+    def _apply_pagination(self, querystring: str, ctx: SqlContext) -> str:
+        if self._limit is None and self._offset is not None:
+            # SQLite has no OFFSET without LIMIT; a negative limit means "no limit"
+            querystring += " LIMIT -1"
+        return super()._apply_pagination(querystring, ctx)
+
     def get_sql(self, ctx: SqlContext | None = None) -> str:
         ctx = ctx or SQLLiteQuery.SQL_CONTEXT
         if not (self._selects or self._insert_table or self._delete_from or self._update_table):
